@@ -558,11 +558,20 @@ def _safe(f, *a):
 
 def impl_section(data, eh, le, asize, addr):
     """-> (entries result, [table result per entry])"""
-    from elftools.dwarf.callframe import CallFrameInfo, FDE
-    from elftools.dwarf.structs import DWARFStructs
-    st = DWARFStructs(little_endian=bool(le), dwarf_format=32, address_size=asize)
-    cfi = CallFrameInfo(io.BytesIO(data), len(data), addr, st, for_eh_frame=bool(eh))
-    es = _safe(cfi.get_entries)
+    from elftools.dwarf.callframe import FDE
+    from elftools.dwarf.dwarfinfo import DWARFInfo, DwarfConfig, DebugSectionDescriptor
+    # the public entry points: DWARFInfo.CFI_entries() / EH_CFI_entries() on a DWARFInfo whose only
+    # section is the generated one (that is where stream, size, address and base_structs come from)
+    sec = DebugSectionDescriptor(stream=io.BytesIO(data), name='.eh_frame' if eh else '.debug_frame',
+                                 global_offset=0, size=len(data), address=addr)
+    none = dict.fromkeys(['debug_info_sec', 'debug_aranges_sec', 'debug_abbrev_sec', 'debug_frame_sec', 'eh_frame_sec',
+                          'debug_str_sec', 'debug_loc_sec', 'debug_ranges_sec', 'debug_line_sec', 'debug_pubtypes_sec',
+                          'debug_pubnames_sec', 'debug_addr_sec', 'debug_str_offsets_sec', 'debug_line_str_sec',
+                          'debug_loclists_sec', 'debug_rnglists_sec', 'debug_sup_sec', 'gnu_debugaltlink_sec',
+                          'debug_types_sec'])
+    none['eh_frame_sec' if eh else 'debug_frame_sec'] = sec
+    di = DWARFInfo(config=DwarfConfig(little_endian=bool(le), machine_arch='x64', default_address_size=asize), **none)
+    es = _safe(di.EH_CFI_entries if eh else di.CFI_entries)
     if isinstance(es, list) and es and es[0] == 'err' and len(es) == 2 and isinstance(es[1], str):
         return es, []
     out = []
